@@ -6197,7 +6197,11 @@ impl<'a, 'graph> Builder<'a, 'graph> {
                 }
                 .into_box(),
               )
-            } else if redirect_count >= loader.max_redirects() {
+            } else if redirect_count >= loader.max_redirects()
+              // a specifier redirecting to itself would otherwise be
+              // ignored as already pending and never complete
+              || specifier == load_specifier
+            {
               Err(
                 ModuleErrorKind::Load {
                   specifier: load_specifier.clone(),
